@@ -67,6 +67,14 @@ def cases(tier, seed):
         if cls == 2:
             sp["irr"]["kw"]["WetSurf"] = float(gen.pick(rng, [20, 50, 80, 100]))
         out.append({"spec": sp})
+    # net irrigation over several years, low and high refill thresholds, moist starts: the
+    # requirement of a day is small there, and a bookkeeping slip shows as a negative one
+    for j in range(base.n_cases(60, 600, tier)):
+        rng = gen.rng_for(seed, ID, 10 ** 5 + j)
+        sp = gen.config(rng, methods=(4,), seasons=(2, 3), p_gw=0.0, p_bunds=0.0, p_custom=0.2, iwc_kinds=("FC", "Pct"),
+                        regimes=["temperate", "warm", "humid", "arid"], p_file=0.3)
+        sp["irr"]["kw"]["NetIrrSMT"] = float(gen.pick(rng, [10, 10, 20, 40, 70]))
+        out.append({"spec": sp})
     return out
 
 
@@ -75,6 +83,7 @@ def monitor(spec, res, acc):
     cov = acc.cov
     method = base.S.irr_method(spec)
     ncomp = len(tr.dz0)
+    tops = np.cumsum(tr.dz0) - tr.dz0
     wet = float((spec.get("irr") or {}).get("kw", {}).get("WetSurf", 100.0))
     seen_es = seen_tr = False
     for s in tr.steps:
@@ -84,7 +93,13 @@ def monitor(spec, res, acc):
         for c in NONNEG:
             cov["flux_checks"] += 1
             v = f[FX[c]]
-            tol = 0.01 * ncomp if (c == "IrrDay" and method == 4) else E
+            if c == "IrrDay" and method == 4:
+                # 0.01 mm for every compartment the root zone reaches into (plus one for the
+                # partially rooted one), not for the whole profile
+                zr = float(s["growth"][GX["z_root"]])
+                tol = 0.01 * (int(np.sum(tops < max(zr, 0.0) - 1e-12)) + 1)
+            else:
+                tol = E
             if not v >= -tol:
                 acc.add("negative-" + c, f"step {t}: {c}={v!r}",
                         dict(t=t, column=c, value=float(v), cc=float(s["growth"][GX["canopy_cover"]])),
